@@ -138,8 +138,14 @@ func (b *trzszBuffer) readLine(mayHasJunk bool, timeout <-chan time.Time) ([]byt
 }
 
 func (b *trzszBuffer) readBinary(size int, timeout <-chan time.Time) ([]byte, error) {
+	if size < 0 {
+		return nil, simpleTrzszError("Invalid binary size: %d", size)
+	}
 	b.readBuf.Reset()
-	if b.readBuf.Cap() < size {
+	// the size is announced by the peer: never allocate more in advance than a buffer chunk can legitimately hold,
+	// a larger block only grows as its data actually arrives
+	const maxPreAllocSize = 32 * 1024 * 1024
+	if b.readBuf.Cap() < size && size <= maxPreAllocSize {
 		b.readBuf.Grow(size)
 	}
 	b.timeout = timeout
